@@ -1,3 +1,21 @@
 chk("C01", "exploration", "runtime differential monitor: engine legal-move multiset vs independent rules oracle (refchess) at every node of generated games/trees; perft totals",
     "Held-on-what-was-explored: every generated node's legal move list is compared as a multiset with an independent rules implementation; node-level comparison cannot be fooled by compensating errors. Not a proof: positions not generated and perft depths > 4 are not covered.",
     "Trusted: refchess (gated by published perft counts at setup); corpus generators produce legal positions with consistent rights/ep.")
+chk("C02", "exploration", "runtime differential monitor: DoMove result (FEN + accessors) vs refchess successor for every legal move of generated positions and ply-by-ply over games up to 500 plies",
+    "Held-on-what-was-explored over (position, move) pairs and long games; compares full successor state, not totals.",
+    "Trusted: refchess successor function; FEN convention that the ep target is set after every double push.")
+chk("C03", "exploration", "runtime invariant monitor: snapshot of all public observables before do / after undo at every level of randomised search-like excursions incl. null moves",
+    "Held-on-what-was-explored over millions of undo operations compared field by field at every nesting level; the asymmetric game-phase clamp (D1) is reported as a known finding keyed to its witness class.",
+    "Trusted: the public getters as observation interface. Known finding D1 listed in known_findings.json.")
+chk("C04", "exploration", "runtime monitor: incremental state vs fresh position from own FEN vs sums over the board; two-way dictionary position identity <-> zobrist key over play, FEN, transpositions and one-component neighbours",
+    "Held-on-what-was-explored; key-function clause decided by a run-wide dictionary so that any two positions that should (not) share a key are compared.",
+    "Trusted: refchess identity (placement, side, rights, ep); 64-bit accidental collisions are assumed not to occur in 10^5..10^7 positions.")
+chk("C09", "exploration", "runtime differential monitor: HasCheck / GivesCheck / IsAttacked / AttacksTo / IsLegalMove / WasLegalMove vs refchess for all squares, colours and pseudo-legal moves, each call under recover",
+    "Held-on-what-was-explored; exhaustive over 64 squares x 2 colours x all pseudo-legal moves of each generated position incl. an ep sweep over all files.",
+    "Trusted: refchess attack sets; E1/E2 conventions required when the ep capture is legal, tolerated when only pseudo-legal; GivesCheck judged on legal moves only.")
+chk("C10", "exploration", "runtime monitor over constructed game histories: CheckRepetitions(1..4) and HalfMoveClock vs refchess game record at every ply; exhaustive material-signature enumeration with three-valued oracle",
+    "Held-on-what-was-explored; cycles are constructed (not hoped for) so that 1-,2-,3-fold situations are observed by the thousand; material classes enumerated exhaustively up to 3 extra pieces per side.",
+    "Trusted: refchess game record; material classes exactly as worded in the property (everything else is 'free').")
+chk("C15", "exploration", "runtime metamorphic monitor: Evaluate vs repeated / fresh-instance / fresh-position / post-excursion / colour-mirror evaluations under 5 evaluation configurations",
+    "Held-on-what-was-explored; each Evaluate result has 5 sibling results that must be identical.",
+    "Trusted: refchess mirror. History dependence through D1 is a known finding keyed to games whose phase sum exceeded 24.")
